@@ -11,6 +11,7 @@
      is tied by the correspondence run on rendered select lists only). *)
 From RBQL Require Import Base Lines Csv CsvWriter CsvSpec CsvStr_Proofs Csv_Proofs CsvRoundtrip_Proofs.
 From RBQL Require Import Utf8 Reader ReaderJs Reader_Proofs ReaderJs_Proofs Header Header_Proofs.
+From RBQL Require Import PyStr JsStr CsvIx CsvIxJs CsvIx_Proofs CsvIxJs_Proofs.
 
 (* the two quoting functions are the same function, for every delimiter and field: quote_field tests the double quote first in one port and
    the delimiter first in the other, rfc_quote_field tests the line breaks with a regular expression in one and two searches in
@@ -208,3 +209,20 @@ Theorem C18_header_text_only_refuted :
   info_js [quote QT $"x"] ($"a[" ++ placeholder 0 ++ $"]") = Some (JName $"x").
 Proof. exact js_text_only. Qed.
 Print Assumptions C18_header_text_only_refuted.
+
+(* ---------------------------------------------------------------- the two SOURCES of the line dialect
+
+   CsvIx.v / CsvIxJs.v state csv_utils.py / csv_utils.js with the recursion structure and data representation of each source
+   and are regenerated from the sources on every run of check C11 (harness/translate_csv.py; generated obligations
+   gen_csv_<name>_eq, gen_csv_js_<name>_eq, and gen_C18_sources_agree_* about the translated texts themselves).
+   As functions on sequences of characters the two are equal: *)
+Theorem C18_index_models_agree_smart_split : forall (pol : policy) (src dlm : str) (preserve : bool),
+  (quoted_policy pol = true -> dlm <> [] /\ dlm <> [QT]) ->
+  jsix_smart_split src dlm (policy_name pol) preserve = ix_smart_split src dlm (policy_name pol) preserve.
+Proof. exact ix_py_js_smart_split_agree. Qed.
+Print Assumptions C18_index_models_agree_smart_split.
+
+Theorem C18_index_models_agree_quote_field : forall (src delim : str),
+  jsix_quote_field src delim = ix_quote_field src delim /\ jsix_rfc_quote_field src delim = ix_rfc_quote_field src delim.
+Proof. exact ix_py_js_quote_agree. Qed.
+Print Assumptions C18_index_models_agree_quote_field.
